@@ -14,19 +14,22 @@ const CrashExitCode = 77
 // Call is one mutating storage call as seen at the storage.Store interface,
 // together with its abstract form (small integer ids) used by the Coq model.
 type Call struct {
-	I     int    `json:"i"` // 1-based position in the workload's call sequence
-	Name  string `json:"name"`
-	Step  int    `json:"step"`
-	Tx    int    `json:"tx"`
-	Chain int    `json:"chain"`
-	Round uint64 `json:"round"`
-	Snap  int    `json:"snap"`
-	Hash  string `json:"hash,omitempty"` // snapshot hash (WriteSnapshot / WriteConsensusSnapshot)
-	Txs   []int  `json:"txs,omitempty"`
+	I     int      `json:"i"` // 1-based position in the workload's call sequence
+	Name  string   `json:"name"`
+	Step  int      `json:"step"`
+	Tx    int      `json:"tx"`
+	Chain int      `json:"chain"`
+	Round uint64   `json:"round"`
+	Snap  int      `json:"snap"`
+	Hash  string   `json:"hash,omitempty"` // snapshot hash (WriteSnapshot / WriteConsensusSnapshot)
+	Txs   []int    `json:"txs,omitempty"`
 	TxH   []string `json:"txh,omitempty"`
-	Cons  bool   `json:"cons,omitempty"`
-	Ref   int    `json:"ref"`
-	Ts    uint64 `json:"ts,omitempty"`
+	Cons  bool     `json:"cons,omitempty"`
+	Ref   int      `json:"ref"`
+	Ts    uint64   `json:"ts,omitempty"`
+	// number of separate Badger transactions the call committed on the graph database
+	Commits int `json:"commits"`
+	v0      uint64
 }
 
 // CrashStore decorates a storage.Store: every mutating method is counted and
@@ -106,11 +109,17 @@ func (s *CrashStore) enter(c *Call) {
 	if s.mode == "before" && c.I == s.k {
 		s.exit()
 	}
+	if bs, ok := s.Store.(*storage.BadgerStore); ok {
+		c.v0 = bs.VerifC22CommitVersion()
+	}
 }
 
 func (s *CrashStore) leave(c *Call) {
 	if !s.active {
 		return
+	}
+	if bs, ok := s.Store.(*storage.BadgerStore); ok {
+		c.Commits = int(bs.VerifC22CommitVersion() - c.v0)
 	}
 	b, _ := json.Marshal(c)
 	s.trace.Write(append(b, '\n'))
